@@ -26,10 +26,14 @@ pub fn gen_case(t: &mut Tape) -> Case {
     // integral float literals are excluded by construction 7 times out of 8 so that the rest of the
     // oracle (idempotence, same SQL) is reached; the finding stays exercised by the remaining eighth
     cfg.no_integral_floats = !t.chance(1, 8);
-    let c = c01::gen_case(t, cfg);
+    let mut c = c01::gen_case(t, cfg);
+    c.prog.surface.redundant_parens = t.chance(1, 3);
     let mut source = print::program(&c.prog);
     if t.chance(1, 2) {
         source = crate::model::lexdecor::decorate(t, &source);
+        if t.chance(1, 4) {
+            source = crate::model::lexdecor::crlf(&source);
+        }
     }
     Case { source }
 }
